@@ -210,6 +210,9 @@ fn same_font(r0: &Raw, r1: &Raw, acc: &mut Acc) -> Option<Diff> {
     if r0.lh < 18 {
         acc.count("info_original_header_shorter_than_18_words");
     }
+    if r0.lh > 18 && h0.extra.last() == Some(&[0, 0, 0, 0]) {
+        acc.count("trailing_zero_header_word_original_vs_canonical");
+    }
     // boundary character
     if r0.boundary_char() != r1.boundary_char() {
         // only observable if some program tests for it; the pair comparison below decides
@@ -633,7 +636,7 @@ const N_TAGS: u64 = 625 * 27 * 2;
 
 /// F-header: header fields and parameters.
 fn gen_header(i: u64) -> String {
-    let d = vcore::digits(i, &[4, 3, 4, 3, 3, 3, 6]);
+    let d = vcore::digits(i, &[4, 3, 4, 3, 3, 3, 9]);
     let mut s = String::new();
     match d[0] {
         1 => s.push_str("(CODINGSCHEME TEX TEXT)\n"),
@@ -669,12 +672,25 @@ fn gen_header(i: u64) -> String {
         3 => s.push_str("(FONTDIMEN (PARAMETER D 3 R 1.0))\n"),
         4 => s.push_str("(FONTDIMEN (QUAD R 1.0) (PARAMETER D 8 R -15.999999))\n"),
         5 => s.push_str("(HEADER D 18 O 1234567)\n(HEADER D 20 O 7)\n"),
+        6 => s.push_str("(HEADER D 18 O 5)\n(HEADER D 19 O 0)\n(HEADER D 20 O 0)\n"), // trailing zero words
+        7 => s.push_str("(HEADER D 18 O 0)\n"),                                         // one word, zero
+        8 => s.push_str("(HEADER D 19 O 5)\n(HEADER D 21 O 0)\n"),                      // zero-filled gap, zero at the end
         _ => {}
     }
     s.push_str("(CHARACTER C A (CHARWD R 1.0))\n");
     s
 }
-const N_HEADER: u64 = 4 * 3 * 4 * 3 * 3 * 3 * 6;
+/// The header words after word 17 that `gen_header(i)` asks for.
+fn gen_header_extra(i: u64) -> Vec<u32> {
+    match i % 9 {
+        5 => vec![0o1234567, 0, 7],
+        6 => vec![5, 0, 0],
+        7 => vec![0],
+        8 => vec![0, 5, 0, 0],
+        _ => vec![],
+    }
+}
+const N_HEADER: u64 = 4 * 3 * 4 * 3 * 3 * 3 * 9;
 
 /// F-entry: labelled one-instruction chains placed at every index around 255, behind P unreachable
 /// instructions, so that `entry point + number of restart words` hits 255, 256 and 257 exactly.
@@ -822,6 +838,12 @@ fn gen_sizes() -> Vec<(String, String)> {
 ///  32 two extra header words (lh = 20) and seven-bit-safe byte 255
 ///  64 `a` has an extensible recipe... no: c gets NEXTLARGER d
 fn write_tfm(p: &Prog, sw: u32) -> Vec<u8> {
+    write_tfm_with(p, sw, None, None)
+}
+
+/// `extra`: the header words after word 17 (overrides switch 32's two words). `raw_lk`: a lig/kern array
+/// and the (character, remainder) entry bytes to use verbatim instead of laying out `p`.
+fn write_tfm_with(p: &Prog, sw: u32, extra: Option<&[u32]>, raw_lk: Option<(&[[u8; 4]], &[(u8, u8)])>) -> Vec<u8> {
     let has = |b: u32| sw & b != 0;
     // characters: a b c d
     let wd: [i32; 4] = [1 << 20, 3 << 19, 1 << 19, 2 << 20];
@@ -895,6 +917,14 @@ fn write_tfm(p: &Prog, sw: u32) -> Vec<u8> {
             words.push([255, 0, (t >> 8) as u8, t as u8]);
         }
     }
+    if let Some((raw, entries)) = raw_lk {
+        words = raw.to_vec();
+        start_of.clear();
+        for (c, r) in entries {
+            start_of.insert(*c, *r);
+        }
+        kern = vec![1 << 16, 2 << 16, 3 << 16, 4 << 16, 5 << 16, 6 << 16];
+    }
     // char_info
     let (bc, ec) = if has(2) { (b'a' - 2, b'd' + 1) } else { (b'a', b'd') };
     let mut char_info: Vec<[u8; 4]> = vec![];
@@ -926,9 +956,14 @@ fn write_tfm(p: &Prog, sw: u32) -> Vec<u8> {
     for ch in hb.chunks(4) {
         header.push([ch[0], ch[1], ch[2], ch[3]]);
     }
-    if has(32) {
-        header.push([0, 0, 0, 9]);
-        header.push([1, 2, 3, 4]);
+    match extra {
+        Some(x) => header.extend(x.iter().map(|v| v.to_be_bytes())),
+        None => {
+            if has(32) {
+                header.push([0, 0, 0, 9]);
+                header.push([1, 2, 3, 4]);
+            }
+        }
     }
     let param: Vec<i32> = vec![1 << 18, 1 << 19];
     let sizes: [usize; 12] = [0, header.len(), bc as usize, ec as usize, width.len(), height.len(), depth.len(), italic.len(), words.len(), if words.is_empty() { 0 } else { kern.len() }, 0, param.len()];
@@ -1058,7 +1093,19 @@ fn main() {
             }
             v
         };
-        if case["kind"] == "pl-dimensions" {
+        if case["kind"] == "tfm-redirect-tables" {
+            let words: Vec<[u8; 4]> = case["words"].as_array().map(|a| a.iter().map(|w| [w[0].as_u64().unwrap_or(0) as u8, w[1].as_u64().unwrap_or(0) as u8, w[2].as_u64().unwrap_or(0) as u8, w[3].as_u64().unwrap_or(0) as u8]).collect()).unwrap_or_default();
+            let entries: Vec<(u8, u8)> = case["entries"].as_array().map(|a| a.iter().map(|e| (e[0].as_u64().unwrap_or(0) as u8, e[1].as_u64().unwrap_or(0) as u8)).collect()).unwrap_or_default();
+            let f = Font::from_tfm(words.clone(), &entries);
+            let p = Prog { words: vec![], starts: vec![], lb_start: None, rbc: None };
+            let b = write_tfm_with(&p, 0, None, Some((&words, &entries)));
+            check_tfm(0, &b, &origin, &mut acc);
+            if acc.fail_count > 0 && entries.iter().any(|(c, _)| lk::chain(&f, *c as i32).iter().any(|(_, w)| w[0] > 128)) {
+                acc.fails.clear();
+                acc.fail_count = 0;
+                acc.known("D41", 0, || case.clone());
+            }
+        } else if case["kind"] == "pl-dimensions" {
             let (pl, intended) = gen_dimensions(case["i"].as_u64().unwrap_or(0));
             check_pl_with(0, &pl, &origin, None, Some(&intended), &mut acc);
         } else if case["kind"] == "pl-entrypoint-boundary" {
@@ -1104,8 +1151,24 @@ fn main() {
     ctx.family("pl-tags", "every NEXTLARGER partial function on {A,B,C,D} (cycles included) x VARCHAR on E with TOP/MID/BOT in {absent,A,D} and REP in {A,B}", N_TAGS, |i, acc| {
         check_pl(i, &gen_tags(i), &|| json!({"kind": "pl-tags", "i": i}), None, acc);
     });
-    ctx.family("pl-header", "coding scheme (absent, short, 39 characters) x family x face x seven-bit-safe flag x checksum (absent/0/max) x design size x font parameters / extra header words", N_HEADER, |i, acc| {
-        check_pl(i, &gen_header(i), &|| json!({"kind": "pl-header", "i": i}), None, acc);
+    ctx.family("pl-header", "coding scheme (absent, short, 39 characters) x family x face x seven-bit-safe flag x checksum (absent/0/max) x design size x font parameters / extra header words (with gaps, all-zero and trailing-zero patterns; lh and the words are also compared with the property list)", N_HEADER, |i, acc| {
+        let pl = gen_header(i);
+        // lh and every extra header word of the TFM must be what the property list says
+        let want = gen_header_extra(i);
+        if let Ok((b0, _)) = pltotf(&pl) {
+            if let Ok(r) = tfmraw::parse(&b0) {
+                let got: Vec<u32> = r.header.iter().skip(18).map(|w| u32::from_be_bytes(*w)).collect();
+                if got != want || r.lh != 18 + want.len() {
+                    acc.eval();
+                    acc.fail(i, json!({"kind": "pl-header", "i": i, "pl": pl}), format!("lh = {}, extra header words {want:?}", 18 + want.len()), format!("lh = {}, extra header words {got:?}", r.lh), "the TFM does not have the header words of the property list");
+                    return;
+                }
+                if want.last() == Some(&0) {
+                    acc.count("trailing_zero_header_word_compared");
+                }
+            }
+        }
+        check_pl(i, &pl, &|| json!({"kind": "pl-header", "i": i}), None, acc);
     });
     {
         let max_rules = ctx.pick(2usize, 3usize);
@@ -1197,6 +1260,108 @@ fn main() {
             },
         );
     }
+    // (v) hand-written TFMs: extra header words of length 1..4 over {0, 5}
+    {
+        let pats: Vec<Vec<u32>> = (1..=4u32).flat_map(|l| (0..(1u32 << l)).map(move |m| (0..l).map(|k| if (m >> k) & 1 == 1 { 5 } else { 0 }).collect())).collect();
+        let bases: Vec<Vec<Rule>> = vec![vec![], vec![Rule { left: 1, right: 0, op: 0 }]];
+        let sws = [0u32, 1 | 2 | 4 | 8 | 16 | 64];
+        let n = (pats.len() * bases.len() * sws.len()) as u64;
+        let (pt, bs) = (&pats, &bases);
+        ctx.family("tfm-header-extra", "hand-written TFM files with 1..4 extra header words, every pattern over {0, 5} (all-zero and trailing-zero included) x {no lig/kern program, one kern} x {canonical form, all non-canonical switches}: lh and every extra word are compared between original and canonical file", n, |i, acc| {
+            let d = vcore::digits(i, &[pt.len() as u64, bs.len() as u64, sws.len() as u64]);
+            let Some(p) = build(&bs[d[1] as usize], None, Layout::Consecutive) else { return };
+            let b = write_tfm_with(&p, sws[d[2] as usize], Some(&pt[d[0] as usize]), None);
+            check_tfm(i, &b, &|| json!({"kind": "tfm-header-extra", "extra": pt[d[0] as usize], "switches": sws[d[2] as usize]}), acc);
+        });
+    }
+    // (vi) hand-written TFMs: small lig/kern arrays with restart (entry-point redirect) words at every position
+    {
+        let nslots = 4u64;
+        let with_c = !ctx.quick();
+        let radices: Vec<u64> = vec![10, 10, 10, 10, 4, 5, if with_c { 5 } else { 1 }];
+        let n = vcore::product(&radices);
+        let rd = &radices;
+        ctx.family(
+            "tfm-redirect-tables",
+            &format!("every lig/kern array of 4 words, each word a kern instruction (skip byte 0, 1 or 128; right character a or b; its own kern amount) or a restart word [254,0,0,t] with t in 0..4, x entry byte of a in 0..4 x entry byte of b in {{none,0..4}}{}: restart words inside SKIP windows, as first word of a chain, inside chains, shared tails across restarts, with and without unreachable instructions", if with_c { " x entry byte of c in {none,0..4}" } else { "" }),
+            n,
+            |i, acc| {
+                let d = vcore::digits(i, rd);
+                let mut words: Vec<[u8; 4]> = vec![];
+                let mut n_restart = 0;
+                for (k, o) in d[..nslots as usize].iter().enumerate() {
+                    if *o < 6 {
+                        words.push([[0u8, 1, 128][(*o % 3) as usize], [b'a', b'b'][(*o / 3) as usize], 128, k as u8]);
+                    } else {
+                        words.push([254, 0, 0, (*o - 6) as u8]);
+                        n_restart += 1;
+                    }
+                }
+                let mut entries: Vec<(u8, u8)> = vec![(b'a', d[4] as u8)];
+                if d[5] > 0 {
+                    entries.push((b'b', (d[5] - 1) as u8));
+                }
+                if d[6] > 0 {
+                    entries.push((b'c', (d[6] - 1) as u8));
+                }
+                // Domain: TeX applies the restart indirection once (§1039). An entry byte that names a
+                // restart word whose target is again a word with skip byte > 128 gives the character
+                // an *empty* program; a property list cannot say that (a LABEL needs an instruction
+                // after it), so such a font has no PL normal form. Counted, not judged.
+                if entries.iter().any(|(_, r)| words.get(*r as usize).map(|w| w[0] > 128 && words.get(w[3] as usize).map(|t| t[0] > 128).unwrap_or(true)).unwrap_or(true)) {
+                    acc.skipped += 1;
+                    acc.count("info_entry_restart_word_points_at_stop_word_not_judged");
+                    return;
+                }
+                // counters from the case: a restart word that lies inside the window of a SKIP
+                let in_skip_window = words.iter().enumerate().any(|(k, w)| w[0] > 0 && w[0] < 128 && (k + 1..=k + w[0] as usize).any(|j| words.get(j).map(|x| x[0] > 128).unwrap_or(false)));
+                let before = acc.nontrivial;
+                let p = Prog { words: vec![], starts: vec![], lb_start: None, rbc: None };
+                let b = write_tfm_with(&p, 0, None, Some((&words, &entries)));
+                // Finding class D41 (predicate on the case): the chain TeX walks for some character ends
+                // in a word with skip byte > 128 (an unconditional stop met *inside* a chain, by falling
+                // through or by a SKIP landing on it). A property list has no such command; TFtoPL writes
+                // nothing for it, so the canonical file continues with whatever instruction follows.
+                let f = Font::from_tfm(words.clone(), &entries);
+                let stop_word_in_chain = entries.iter().any(|(c, _)| lk::chain(&f, *c as i32).iter().any(|(_, w)| w[0] > 128));
+                if stop_word_in_chain {
+                    let mut tmp = Acc::default();
+                    check_tfm(i, &b, &|| json!({"kind": "tfm-redirect-tables", "words": words, "entries": entries}), &mut tmp);
+                    if tmp.fail_count > 0 {
+                        let first = tmp.fails[0].clone();
+                        tmp.fails.clear();
+                        tmp.fail_count = 0;
+                        tmp.classes.clear();
+                        tmp.class("unconditional-stop word inside a chain is lost in the property list (D41)");
+                        acc.merge(tmp);
+                        acc.known("D41", i, || {
+                            let mut v = first.case.clone();
+                            v["note"] = json!(first.note);
+                            v["expected"] = json!(first.expected);
+                            v["observed"] = json!(first.observed);
+                            v
+                        });
+                    } else {
+                        acc.merge(tmp);
+                    }
+                    return;
+                }
+                check_tfm(i, &b, &|| json!({"kind": "tfm-redirect-tables", "words": words, "entries": entries}), acc);
+                if acc.nontrivial > before {
+                    if n_restart > 0 {
+                        acc.count("redirect_table_with_restart_word_checked");
+                    }
+                    if in_skip_window {
+                        acc.count("restart_word_inside_skip_window_checked");
+                    }
+                }
+            },
+        );
+    }
+    ctx.require("restart_word_inside_skip_window_checked", "a warning-free hand-written TFM in which a SKIP jumps over a restart word");
+    ctx.require("redirect_table_with_restart_word_checked", "a warning-free hand-written TFM with restart words in a small lig/kern array");
+    ctx.require("trailing_zero_header_word_original_vs_canonical", "an original TFM whose last extra header word is zero compared with its canonical file");
+    ctx.require("trailing_zero_header_word_compared", "a generated property list whose last HEADER word is zero compared with its TFM");
     ctx.require("original_not_canonical", "files whose canonical form differs from the original bytes");
     ctx.require("original_already_canonical", "files that are their own canonical form");
     ctx.require("instruction_beyond_255_fired", "a lig/kern instruction at an index above 255 fired (entry-point redirection in use)");
